@@ -153,6 +153,19 @@ CLAIMED = {
         design_ref="DESIGN.md section 5 C05",
         note="Trusted: TLC, the TLA+ escape decoder, one concrete code point per character class. Simple escapes may be kept or "
              "resolved; the position of the EOF token is not judged (statement silent)."),
+    "C02": dict(
+        technique="TLA+ generators of abstract stylesheets carrying the denoted AST (SheetAST.tla: level-wise exhaustive sets plus a "
+                  "statement-level machine with invariant WellOrdered), contract SheetASTContract (DOM = AST for every spelling, "
+                  "StripComments, validation-independence); each AST rendered in 6 spelling vectors, parsed under 3 parser "
+                  "configurations, projected through public accessors; TLC trace monitor compares structures",
+        text="Bounded exhaustive per level: values (all component lists <=3 over 11 component kinds x 3 separators), declaration "
+             "blocks (<=3 items incl. comments, priorities), selector lists incl. namespaced forms, @import/@media (nested)/"
+             "@page with margin boxes/@namespace/@charset/@font-face/unknown preludes over their optional parts, statement "
+             "sequences <=3 (quick) / 4 (thorough); x 6 spelling vectors x {default, parseComments=False, validate=False}. The "
+             "expected DOM is known by construction, independent of the code under test.",
+        design_ref="DESIGN.md section 5 C02",
+        note="Trusted: TLC, the adapter's renderer (spelling) and projection. Atoms come from small vocabularies whose canonical "
+             "texts are fixpoints of cssutils' value serialisation; character-level content is C03/C05/C18's job."),
 }
 PENDING = "check not built yet in this round (see DESIGN.md section 10 build order); no claim is made"
 NOT_APPLICABLE = {}
